@@ -4,6 +4,8 @@ import (
 	"go/constant"
 	"go/token"
 	"go/types"
+	"sort"
+	"strings"
 
 	"golang.org/x/tools/go/ssa"
 
@@ -24,21 +26,21 @@ import (
 //
 // Added after seed C26-m1 (extension length read at b[14:16] before the CSRC
 // list was accounted for: wrong OSN for every packet with CSRCs and an extension).
-func c26R5(c *Ctx) {
+func c26R5(c *Ctx, rule string) {
 	r := c.R
-	fi := c.mustFunc("C26.R5", "", "RTPReceiver.maybeStartRepairStreamReader")
+	fi := c.mustFunc(rule, "", "RTPReceiver.maybeStartRepairStreamReader")
 	if fi == nil {
 		return
 	}
 	fn := c.P.SSAFunc(fi)
 	if fn == nil {
-		r.Fail("C26.R5", "anchor:ssa", "-", "no SSA body")
+		r.Fail(rule, "anchor:ssa", "-", "no SSA body")
 		return
 	}
 	pos := c.P.Pos(fi.Decl.Pos())
 	u16 := c.P.MethodOfExternal("encoding/binary", "bigEndian", "Uint16")
 	if u16 == nil {
-		r.Fail("C26.R5", "anchor:binary.BigEndian.Uint16", "-", "encoding/binary bigEndian.Uint16 no longer resolves")
+		r.Fail(rule, "anchor:binary.BigEndian.Uint16", "-", "encoding/binary bigEndian.Uint16 no longer resolves")
 		return
 	}
 	isByteSlice := func(t types.Type) bool {
@@ -145,7 +147,7 @@ func c26R5(c *Ctx) {
 		name string
 	}{{0x0F, "CC"}, {0x10, "X"}, {0x20, "P"}} {
 		_, ok := masks[m.mask]
-		r.Check(ok, "C26.R5", sprintf("rtx-unwrap|byte0-mask|%s=0x%02X", m.name, m.mask), pos, "b[0] & mask present",
+		r.Check(ok, rule, sprintf("rtx-unwrap|byte0-mask|%s=0x%02X", m.name, m.mask), pos, "b[0] & mask present",
 			sprintf("no `b[0] & 0x%02X` found: the %s field of the RTP header is not taken from byte 0 with the RFC 3550 mask", m.mask, m.name))
 	}
 	cc := masks[0x0F]
@@ -154,18 +156,18 @@ func c26R5(c *Ctx) {
 	}
 	// (b)
 	if len(extReads) == 0 {
-		r.Fail("C26.R5", "rtx-unwrap|extension-length|offset-depends-on-CC", pos, "the 16-bit extension length is read at a fixed offset (or not at all): with CSRCs present the extension header starts 4*CC bytes later, so the header length - and with it the OSN offset - is wrong")
+		r.Fail(rule, "rtx-unwrap|extension-length|offset-depends-on-CC", pos, "the 16-bit extension length is read at a fixed offset (or not at all): with CSRCs present the extension header starts 4*CC bytes later, so the header length - and with it the OSN offset - is wrong")
 	}
 	for i, er := range extReads {
 		sl := er.Common().Args[len(er.Common().Args)-1].(*ssa.Slice)
 		d := core.ValueDepsFollow(sl.Low, samePkg)
 		r.Cells += len(d.Values)
-		r.Check(d.ContainsEquiv(cc), "C26.R5", sprintf("rtx-unwrap|extension-length#%d|offset-depends-on-CC", i), c.P.Pos(er.Pos()),
+		r.Check(d.ContainsEquiv(cc), rule, sprintf("rtx-unwrap|extension-length#%d|offset-depends-on-CC", i), c.P.Pos(er.Pos()),
 			"the extension length is read after the CSRC list", "the offset at which the extension length is read does not depend on the CSRC count: with CSRCs present the wrong bytes are taken as extension length and the OSN is read from the wrong place")
 	}
 	// (c)
 	if len(osnIdx) == 0 {
-		r.Undecided("C26.R5", "rtx-unwrap|osn-offset", pos, "no `b[2] = b[<header length>]` / `b[3] = …` stores found")
+		r.Undecided(rule, "rtx-unwrap|osn-offset", pos, "no `b[2] = b[<header length>]` / `b[3] = …` stores found")
 	}
 	for i, idx := range osnIdx {
 		d := core.ValueDepsFollow(idx, samePkg)
@@ -197,6 +199,181 @@ func c26R5(c *Ctx) {
 		if why == "" && (!has12 || !has4) {
 			why = "is not built from the fixed header size 12 and the word size 4"
 		}
-		r.Check(why == "", "C26.R5", sprintf("rtx-unwrap|osn-offset#%d", i), c.P.Pos(idx.Pos()), "OSN offset = 12 + 4*CC (+ extension)", "the offset the original sequence number is read from "+why)
+		r.Check(why == "", rule, sprintf("rtx-unwrap|osn-offset#%d", i), c.P.Pos(idx.Pos()), "OSN offset = 12 + 4*CC (+ extension)", "the offset the original sequence number is read from "+why)
 	}
+	// (d) value of the OSN offset as a linear form over CC (CSRC count) and L (extension length in words):
+	// RFC 3550: 12 + 4*CC without extension, 12 + 4*CC + 4*(1 + L) with one. Evaluated symbolically on SSA
+	// (constants, +, -, * by a constant, shifts by a constant, conversions, phi = alternatives, same-package
+	// helper results); when the expression is outside that fragment the clause is listed, not judged.
+	isCC := func(v ssa.Value) bool {
+		x, ok := v.(*ssa.BinOp)
+		if !ok || x.Op != token.AND {
+			return false
+		}
+		if m, ok := constInt(x.Y); ok && m == 0x0F && byteLoadAt(x.X, 0) {
+			return true
+		}
+		if m, ok := constInt(x.X); ok && m == 0x0F && byteLoadAt(x.Y, 0) {
+			return true
+		}
+		return false
+	}
+	isExtRead := func(v ssa.Value) bool {
+		for _, er := range extReads {
+			if v == ssa.Value(er) {
+				return true
+			}
+		}
+		return false
+	}
+	type lin struct{ c, cc, l int64 }
+	var eval func(v ssa.Value, depth int, visiting map[ssa.Value]bool) ([]lin, bool)
+	eval = func(v ssa.Value, depth int, visiting map[ssa.Value]bool) ([]lin, bool) {
+		if depth > 40 || visiting[v] {
+			return nil, false
+		}
+		if n, ok := constInt(v); ok {
+			return []lin{{c: n}}, true
+		}
+		if isCC(v) {
+			return []lin{{cc: 1}}, true
+		}
+		if isExtRead(v) {
+			return []lin{{l: 1}}, true
+		}
+		visiting[v] = true
+		defer delete(visiting, v)
+		switch x := v.(type) {
+		case *ssa.Convert:
+			return eval(x.X, depth+1, visiting)
+		case *ssa.ChangeType:
+			return eval(x.X, depth+1, visiting)
+		case *ssa.Phi:
+			var out []lin
+			for _, e := range x.Edges {
+				fs, ok := eval(e, depth+1, visiting)
+				if !ok {
+					return nil, false
+				}
+				out = append(out, fs...)
+			}
+			if len(out) > 16 {
+				return nil, false
+			}
+			return out, true
+		case *ssa.BinOp:
+			a, ok1 := eval(x.X, depth+1, visiting)
+			b, ok2 := eval(x.Y, depth+1, visiting)
+			if !ok1 || !ok2 {
+				return nil, false
+			}
+			var out []lin
+			for _, p := range a {
+				for _, q := range b {
+					switch x.Op {
+					case token.ADD:
+						out = append(out, lin{p.c + q.c, p.cc + q.cc, p.l + q.l})
+					case token.SUB:
+						out = append(out, lin{p.c - q.c, p.cc - q.cc, p.l - q.l})
+					case token.MUL:
+						switch {
+						case p.cc == 0 && p.l == 0:
+							out = append(out, lin{p.c * q.c, p.c * q.cc, p.c * q.l})
+						case q.cc == 0 && q.l == 0:
+							out = append(out, lin{p.c * q.c, q.c * p.cc, q.c * p.l})
+						default:
+							return nil, false
+						}
+					case token.SHL:
+						if q.cc != 0 || q.l != 0 || q.c < 0 || q.c > 16 {
+							return nil, false
+						}
+						k := int64(1) << uint(q.c)
+						out = append(out, lin{p.c * k, p.cc * k, p.l * k})
+					default:
+						return nil, false
+					}
+				}
+			}
+			if len(out) > 16 {
+				return nil, false
+			}
+			return out, true
+		case *ssa.Extract:
+			call, ok := x.Tuple.(*ssa.Call)
+			if !ok {
+				return nil, false
+			}
+			sc := call.Common().StaticCallee()
+			if !samePkg(sc) {
+				return nil, false
+			}
+			var out []lin
+			for _, b := range sc.Blocks {
+				for _, ins := range b.Instrs {
+					if ret, ok := ins.(*ssa.Return); ok && x.Index < len(ret.Results) {
+						fs, ok := eval(ret.Results[x.Index], depth+1, visiting)
+						if !ok {
+							return nil, false
+						}
+						out = append(out, fs...)
+					}
+				}
+			}
+			return out, len(out) > 0
+		case *ssa.Call:
+			sc := x.Common().StaticCallee()
+			if !samePkg(sc) {
+				return nil, false
+			}
+			var out []lin
+			for _, b := range sc.Blocks {
+				for _, ins := range b.Instrs {
+					if ret, ok := ins.(*ssa.Return); ok && len(ret.Results) == 1 {
+						fs, ok := eval(ret.Results[0], depth+1, visiting)
+						if !ok {
+							return nil, false
+						}
+						out = append(out, fs...)
+					}
+				}
+			}
+			return out, len(out) > 0
+		}
+		return nil, false
+	}
+	for i, idx := range osnIdx {
+		forms, ok := eval(idx, 0, map[ssa.Value]bool{})
+		key := sprintf("rtx-unwrap|osn-offset#%d|value", i)
+		if !ok {
+			r.Info(rule, key, c.P.Pos(idx.Pos()), "the OSN offset is not a linear expression of CC and the extension length in the supported fragment: value not judged")
+			continue
+		}
+		// the two stores read b[h] and b[h+1]; normalise by the smallest constant part
+		set := map[lin]bool{}
+		for _, f := range forms {
+			set[f] = true
+		}
+		okForm := func(delta int64) bool {
+			want := map[lin]bool{{12 + delta, 4, 0}: true, {16 + delta, 4, 4}: true}
+			if len(set) != len(want) {
+				return false
+			}
+			for f := range set {
+				if !want[f] {
+					return false
+				}
+			}
+			return true
+		}
+		var got []string
+		for f := range set {
+			got = append(got, sprintf("%d + %d*CC + %d*L", f.c, f.cc, f.l))
+		}
+		sort.Strings(got)
+		r.Cells++
+		r.Check(okForm(0) || okForm(1), rule, key, c.P.Pos(idx.Pos()), "OSN offset is 12 + 4*CC, plus 4*(1+L) when the X bit is set",
+			"the offset the original sequence number is read from evaluates to {"+strings.Join(got, " | ")+"}, RFC 3550 gives {12 + 4*CC | 16 + 4*CC + 4*L} (fixed header, CSRC list, and with X set the 4-byte extension header plus L words): retransmissions carrying a header extension are unwrapped at the wrong offset")
+	}
+
 }
